@@ -211,6 +211,21 @@ def run(ck: core.Check):
                     reqs.append(lf.gen_request(rng, prog))
         cases.append((prog, reqs))
 
+    # ---- size boundary: dependency chains of 1200 / 3000 sequential operators, flat and inside a body, both flag
+    # values, valid and missing-input requests (Python's default recursion limit is 1000)
+    for n_, in_body in ck.pick([(1200, False), (1200, True), (3000, False)],
+                               [(1200, False), (1200, True), (3000, False), (3000, True), (5000, False)]):
+        cp = lf.gen_chain_program(rng, n_, in_body)
+        cases.append((cp, lf.chain_requests(cp)))
+    # ---- size in breadth: > 100 inputs, > 50 outputs
+    for _ in range(ck.pick(2, 8)):
+        wp, wreqs = lf.gen_wide_program(rng, rng.choice([110, 120, 150]))
+        cases.append((wp, wreqs))
+    # ---- If nested 5-7 deep and inlined models with very long internal names (long generated names)
+    for _ in range(ck.pick(6, 40)):
+        lp, lreq = lf.gen_long_name_program(rng)
+        cases.append((lp, [lreq, lf.gen_request(rng, lp), lf.gen_request(rng, lp)]))
+
     # ---- correspondence + in-process oracle
     flat = [(prog, req) for prog, reqs in cases for req in reqs]
     try:
@@ -241,7 +256,10 @@ def run(ck: core.Check):
         for req in reqs:
             m = model[k]
             k += 1
-            with_values = (k % ck.pick(3, 2)) == 0
+            big = prog["n"] > 400   # the evaluator and the statistics below recurse along dependency chains
+            with_values = (k % ck.pick(3, 2)) == 0 and not big
+            if "chain" in prog or "wide" in prog:
+                stats["chains" if "chain" in prog else "wide"] = stats.get("chains" if "chain" in prog else "wide", 0) + 1
             bad, got = oracle_inproc(prog, req, env, with_values=with_values, feed_seed=k)
             if len(got) == 3:
                 stats["runtime_refused"] += 1
@@ -254,7 +272,7 @@ def run(ck: core.Check):
                 stats["repeated_output_var"] = stats.get("repeated_output_var", 0) + 1
             if {i for _, i in req["outputs"]} & {i for _, i in req["inputs"]}:
                 stats["var_both_input_and_output"] = stats.get("var_both_input_and_output", 0) + 1
-            if exp and exp[0] == "ok":
+            if exp and exp[0] == "ok" and not big:
                 if with_values:
                     stats["value_checks"] += 1
                 if req["drop"] and len(exp[1]) < len(req["inputs"]):
